@@ -560,6 +560,10 @@ func (pConn *PFCPConn) handleSessionReportResponse(msg message.Message) error {
 
 		logger.PfcpLog.Warnln("context not found, deleting session locally")
 
+		if err := releaseAllocatedIPs(upf.ippool, &sessItem); err != nil {
+			logger.PfcpLog.Errorf("failed to release UE IP of session %v: %v", seid, err)
+		}
+
 		pConn.RemoveSession(sessItem)
 
 		cause := upf.SendMsgToUPF(
